@@ -51,3 +51,19 @@ Proof.
   intros A v s Hs. pose proof (@vec_unvec_roundtrip A v s Hs) as H.
   destruct (vec_to_tensor v s) as [t|]; cbn [rbind] in H; [exists t; split; [reflexivity|exact H]|discriminate].
 Qed.
+
+(* the backend primitives the nine functions are built from lose nothing either *)
+Lemma transpose_injective : forall (A : Type) (d : A) (t t' : tensor A) (p : list nat),
+  wf t -> wf t' -> is_permb (ndim t) p = true -> is_permb (ndim t') p = true ->
+  transpose d p t = transpose d p t' -> t = t'.
+Proof.
+  intros A d t t' p Hw Hw' Hp Hp' H.
+  rewrite <- (@transpose_inverse A d t p Hw Hp), <- (@transpose_inverse A d t' p Hw' Hp'), H. reflexivity.
+Qed.
+Lemma moveaxis_injective : forall (A : Type) (d : A) (t t' : tensor A) (a b : nat),
+  wf t -> wf t' -> a < ndim t -> b < ndim t -> a < ndim t' -> b < ndim t' ->
+  moveaxis d t a b = moveaxis d t' a b -> t = t'.
+Proof.
+  intros A d t t' a b Hw Hw' Ha Hb Ha' Hb' H.
+  rewrite <- (@moveaxis_roundtrip A d t a b Hw Ha Hb), <- (@moveaxis_roundtrip A d t' a b Hw' Ha' Hb'), H. reflexivity.
+Qed.
